@@ -124,7 +124,7 @@ package db
 //@   props C10 C05
 //@   modifies alloc mem heap box created
 //@   ghost-entry created = 0
-//@   ensures [result] r1 == nil ==> r0 != nil
+//@   ensures [result] r1 == nil ==> r0 != nil && fresh(r0)
 //@   loop 1 invariant [numbering] autoindex == 1 + created
 //@   loop 1 invariant [columns] len(st.Columns) == $i
 //@   loop 1 invariant [columns] forall j int :: 0 <= j && j < $i ==> COLRULE(ct, ct.Columns[j], st.Columns[j])
@@ -137,4 +137,4 @@ package db
 //@ func db.newSchema
 //@   props C10 C05
 //@   modifies alloc mem heap box created
-//@   ensures [result] err == nil ==> r0 != nil
+//@   ensures [result] err == nil ==> r0 != nil && fresh(r0)
